@@ -34,7 +34,7 @@ if [ -n "$demo" ]; then
   fi
 fi
 for p in "$prop" "$@"; do
-  out=$(cd "$(dirname "$0")/.." && VERIF_REPO="$D" VERIF_BUILD="$(pwd)/.build/seed-$p" ./check "$p" "$tier" 2>&1)
+  out=$(cd "$(dirname "$0")/.." && VERIF_RUN_TAG="-seed$$" VERIF_REPO="$D" VERIF_BUILD="$(pwd)/.build/seed-$p" ./check "$p" "$tier" 2>&1)
   rc=$?
   echo "$out" | grep -E "^(VIOLATION|INCONCLUSIVE|OK|KNOWN)" | head -3 | cut -c1-200
   echo "$out" | grep -E "^  (key|observed)=" | head -4 | cut -c1-300
